@@ -19,13 +19,16 @@ for d in sorted(glob.glob('/verif/seeded/C*')):
         elif cur and line.startswith('INCONCLUSIVE') and not cur[1].startswith('caught'): cur[1] = 'inconclusive: ' + line.strip()
     checks = {}
     first = {}
+    missed_once = set()
     for name, outcome, rerun in runs:
         cls = outcome.split(':')[0]
         if name not in first:
             first[name] = cls
         if outcome == 'no result' and name in checks:
             continue
-        if first[name] == 'MISSED' and cls == 'caught':
+        if cls == 'MISSED':
+            missed_once.add(name)
+        if name in missed_once and cls == 'caught':
             checks[name] = 'first run MISSED; after the check was strengthened: ' + outcome
         else:
             checks[name] = outcome + (' (re-run on the final /repo HEAD)' if rerun else '')
